@@ -111,3 +111,17 @@ func vfJWKSetLifetime(t *TraefikOidc, d time.Duration) bool {
 
 // vfJWKCleanup is what the once-a-minute cleanup tick does to the key-set cache
 func vfJWKCleanup(t *TraefikOidc) { t.jwkCache.Cleanup() }
+
+// vfReadTokens loads a session from exactly these cookies through the real SessionManager and returns what its
+// getters read; ok=false when GetSession refuses the session as a whole
+func vfReadTokens(sm *SessionManager, jar map[string]string) (idToken, refreshToken string, ok bool) {
+	req, _ := http.NewRequest("GET", "http://readback.invalid/", nil)
+	for n, v := range jar {
+		req.AddCookie(&http.Cookie{Name: n, Value: v})
+	}
+	sd, err := sm.GetSession(req)
+	if err != nil || sd == nil {
+		return "", "", false
+	}
+	return sd.GetAccessToken(), sd.GetRefreshToken(), true
+}
